@@ -251,7 +251,58 @@ def wellformed(ctx, prog):
 _run1 = run
 
 
+# IANA "CBOR Tags" registry entries that minicbor names (RFC 8949 section 3.4, RFC 8746 typed arrays / multi-dimensional arrays)
+IANA = {
+    'DateTime': 0, 'Timestamp': 1, 'PosBignum': 2, 'NegBignum': 3, 'Decimal': 4, 'Bigfloat': 5,
+    'ToBase64Url': 21, 'ToBase64': 22, 'ToBase16': 23, 'Cbor': 24, 'Uri': 32, 'Base64Url': 33, 'Base64': 34, 'Regex': 35, 'Mime': 36,
+    'MultiDimArrayR': 40, 'HomogenousArray': 41,
+    'TypedArrayU8': 64, 'TypedArrayU16B': 65, 'TypedArrayU32B': 66, 'TypedArrayU64B': 67, 'TypedArrayU8Clamped': 68,
+    'TypedArrayU16L': 69, 'TypedArrayU32L': 70, 'TypedArrayU64L': 71,
+    'TypedArrayI8': 72, 'TypedArrayI16B': 73, 'TypedArrayI32B': 74, 'TypedArrayI64B': 75,
+    'TypedArrayI16L': 77, 'TypedArrayI32L': 78, 'TypedArrayI64L': 79,
+    'TypedArrayF16B': 80, 'TypedArrayF32B': 81, 'TypedArrayF64B': 82, 'TypedArrayF128B': 83,
+    'TypedArrayF16L': 84, 'TypedArrayF32L': 85, 'TypedArrayF64L': 86, 'TypedArrayF128L': 87,
+    'MultiDimArrayC': 1040,
+}
+
+
+def iana_tags(ctx, prog):
+    """the data-model value of an `IanaTag` is its registered number: `Encode for IanaTag`, interpreted per variant, writes it"""
+    from . import summaries
+    from .. import l2
+    ctx.rules_run.append('T-IANA: Encode for IanaTag, interpreted for every variant, writes exactly one tag head carrying the number the IANA registry (RFC 8949 3.4, RFC 8746) assigns to that name')
+    path = '<minicbor::data::IanaTag as minicbor::encode::Encode<C>>::encode'
+    r = summaries.summary(prog, path, 'enc')
+    if not r or isinstance(r[0], str):
+        ctx.fail_closed('T-IANA', 'Encode for IanaTag cannot be summarised: %s' % (r[1] if r else 'anchor missing'))
+        return
+    inst, outs = r[0], r[1]
+    where = mir.loc(inst['sp'])
+    ad = prog.adts.get('minicbor::data::IanaTag')
+    names = [v['name'] for v in ad['variants']] if ad else []
+    seen = {}
+    for o in outs:
+        if o.kind != 'return':
+            continue
+        v = summaries.choices(o.st).get('self*')
+        items = l2.items_of(o.st.events)
+        seen.setdefault(v, []).append(items)
+    n = 0
+    for name in names:
+        want = IANA.get(name)
+        got = seen.get(name)
+        n += 1
+        if want is None:
+            ctx.violation('T-IANA', name + '|unknown', 'IanaTag::%s is not in the reference copy of the registry (add it after checking the IANA number)' % name, where)
+        elif not got or any(len(it) != 1 or it[0][0] != 'TAG' or repr(it[0][1]) != str(want) for it in got):
+            ctx.violation('T-IANA', name, 'IanaTag::%s is written as %s; the registry assigns tag %d' % (name, [tables.fmt_stream(x) if hasattr(tables, "fmt_stream") else x for x in (got or [])], want), where)
+        else:
+            ctx.ok('T-IANA', name)
+    ctx.floor('T-IANA', 'variants', n, 41)
+
+
 def run(ctx):
     expl = _run1(ctx)
     wellformed(ctx, load.program('core-full'))
+    iana_tags(ctx, load.program('core-full'))
     return expl + ' Item-level emission summaries of all built-in Encode impls parse as exactly one item tree.'
